@@ -61,6 +61,21 @@ critical-section shape of `terminate()` as a static obligation (C09), argument-t
 field boundaries such as a card key version of FFFFh (C20), the chip/driver split of CRC responsibility (C14), and -
 because seed C07-d2 made two checks run for ever - the hang watchdog described under "Changes".
 
+Round 5 (`Cxx-eN`: supporting code OUTSIDE the anchored functions - base classes, package `__init__`, the frontend's
+`exchange`, transports and drivers, exception hierarchy, `__str__`/`__eq__`/`__len__` used implicitly on the hot path,
+cross-feature interactions) was first missed in 22 of 41 cases: the harnesses had mostly entered the code at the
+anchored functions (a fake `clf.exchange`, PDU objects handed to `dispatch`, fresh tag objects).  Added in response:
+a real `ContactlessFrontend` over a fake *device* (C01-C03, C12) and real drivers over chip-level fakes (C01 Type 1 > 1K,
+C14 whole init/use/close sessions with every transport write validated); histories through the real `Tag.format` /
+`Tag.ndef` base class; multi-system FeliCa cards; every `CommunicationError` subclass as fault (C04) and a static
+obligation that the reader side of each driver raises only what the tag layer handles (C16); every value of every
+enumerated PDU field and hostile octets in every byte-string field, at decoder level (`str/repr/len/==/encode` on every
+decoded PDU), in live run loops and as replies to application calls (C07, C09, C18); SNEP/handover in both directions at
+once with slow consumers (C06); the `nfc.llcp.Socket` wrapper with a socket-option sweep and buffer mutation (C10,
+which exposed the defect repaired by `4647959`); APDU-level adversaries (C08); tamper monitoring on every data path of an
+authenticated tag (C20, which exposed the defect repaired by `72d9c42`).  Most of these additions are dynamic (monitor and
+correspondence); where the supporting code has no Coq model this is said in the check's assumptions.
+
 | seed | change | quick check | how |
 |---|---|---|---|
 ''' + '\n'.join(rows) + '\n\n'
